@@ -254,6 +254,19 @@ func rewriteFile(path string) {
 				changed = true
 			}
 		case *ast.CallExpr:
+			// tls.DialWithDialer(&net.Dialer{...}, ...): the dialer literal becomes a simrt.Dialer
+			if tlsN != "" && netN != "" {
+				if fs, ok := isPkgSel(x.Fun, tlsN); ok && fs.Sel.Name == "DialWithDialer" && len(x.Args) > 0 {
+					if u, ok := x.Args[0].(*ast.UnaryExpr); ok && u.Op == token.AND {
+						if cl, ok := u.X.(*ast.CompositeLit); ok {
+							if ts, ok := isPkgSel(cl.Type, netN); ok && ts.Sel.Name == "Dialer" {
+								cl.Type = &ast.SelectorExpr{X: simrtIdent(), Sel: ast.NewIdent("Dialer")}
+								changed = true
+							}
+						}
+					}
+				}
+			}
 			// <expr>.ListenAndServe() on a miekg *dns.Server
 			if dnsN == "" || hasHTTP {
 				return true
